@@ -101,6 +101,7 @@ type Exec struct {
 	pendingDyn  map[string]*Term
 	dynDone     map[string]bool
 	extDone     map[string]bool
+	inlineStack []*ssa.Function
 }
 
 type Frame struct {
@@ -502,7 +503,14 @@ func (x *Exec) execFunc(fn *ssa.Function, args []Val, bindings []Val, st *State,
 		panic(unsupported("inline depth exceeded at " + fn.String()))
 	}
 	x.callDepth++
-	defer func() { x.callDepth-- }()
+	for _, f := range x.inlineStack {
+		if f == fn {
+			x.callDepth--
+			panic(unsupported("recursive inlining of " + fn.String() + " (e.g. a method promoted from an embedded interface that is never set)"))
+		}
+	}
+	x.inlineStack = append(x.inlineStack, fn)
+	defer func() { x.callDepth--; x.inlineStack = x.inlineStack[:len(x.inlineStack)-1] }()
 
 	fr := &Frame{fn: fn, env: map[ssa.Value]Val{}, site: site, bindings: bindings, isUnit: isUnit,
 		names: map[string]ssa.Value{}, entrySt: st, args: args}
@@ -623,7 +631,7 @@ func (x *Exec) execFunc(fn *ssa.Function, args []Val, bindings []Val, st *State,
 				x.setEdge(fr, edge, b, b.Succs[0], cur)
 				ended = true
 			case *ssa.Return:
-				x.runDefers(fr, cur)
+				// deferred calls were run by the explicit RunDefers instruction that precedes every return
 				var vals []Val
 				for _, r := range t.Results {
 					vals = append(vals, x.val(fr, r))
@@ -634,7 +642,9 @@ func (x *Exec) execFunc(fn *ssa.Function, args []Val, bindings []Val, st *State,
 				x.oblige(cur, "safe:assert", "panic", x.siteOf(fr, ins), "explicit panic reachable", x.C.False())
 				ended = true
 			default:
-				x.execInstr(fr, cur, ins)
+				if !x.safeExecInstr(fr, cur, ins) {
+					ended = true
+				}
 			}
 			if ended {
 				break
@@ -1108,4 +1118,30 @@ func (x *Exec) pointRange(k string, v *Term, st *State) {
 			x.assumeGlobal(c.And(c.Le(c.Int(0), v), c.Le(v, st.Alloc)))
 		}
 	}
+}
+
+// safeExecInstr executes one instruction. A construct outside the supported
+// subset does not fail the unit outright: it becomes the obligation that this
+// point is unreachable under the contract's preconditions (e.g. the JSON
+// branch of SendSet under `requires !sendJSONRecord`), and the path ends.
+func (x *Exec) safeExecInstr(fr *Frame, cur *State, ins ssa.Instruction) (ok bool) {
+	defer func() {
+		if r := recover(); r != nil {
+			u, isU := r.(unsupportedErr)
+			if !isU {
+				panic(r)
+			}
+			if x.dry {
+				cur.PC = x.C.False()
+				ok = false
+				return
+			}
+			x.oblige(cur, "unsupported", "unreachable", x.siteOf(fr, ins), "construct outside the verified subset must be unreachable: "+u.msg, x.C.False())
+			x.note("outside the subset (proved unreachable or reported): " + u.msg)
+			cur.PC = x.C.False()
+			ok = false
+		}
+	}()
+	x.execInstr(fr, cur, ins)
+	return true
 }
